@@ -74,7 +74,9 @@ class VirtualLoop(asyncio.SelectorEventLoop):
     def _record_exc(self, loop, context):
         msg = context.get("message", "")
         exc = context.get("exception")
-        self.exc_events.append(f"{msg}: {exc!r}"[:300])
+        ev = f"{msg}: {exc!r}"[:300]
+        self.exc_events.append(ev)
+        LOOP_EVENTS.append(ev)   # process-wide: also receives what is only reported when a task is collected
 
     # --- clock -----------------------------------------------------------
     def time(self) -> float:
@@ -173,10 +175,6 @@ def run_virtual(
             if loop.hung:
                 raise HangDetected(loop.hang_reason)
             raise
-        finally:
-            import gc
-            gc.collect()   # "Task was destroyed but it is pending" is reported at collection time
-            LOOP_EVENTS.extend(loop.exc_events)
         if loop.hung:
             raise HangDetected(loop.hang_reason)
         return res, loop
